@@ -10,8 +10,14 @@ Contracts on the real OperationGroup (src/pytezos/operation/group.py); `forged` 
               under the source public key over  W || forged,  W = 0x03 for non-consensus operations and
               0x02 || chain-id bytes for consensus operations (endorsement kinds); ed/sp/p2: independent verifier
               (`cryptography`) over Blake2b-256(W||forged); BLS: deterministic reference signature over W||forged itself
-  hash()      ensures  == base58 `o` of Blake2b-256(forged || raw signature)   (hashlib + own Base58Check)
+  hash()      ensures  == base58 `o` of Blake2b-256(forged || raw signature)   (hashlib + own Base58Check), whatever notation the
+              signature is written in (generic `sig` or edsig / spsig1 / p2sig / BLsig) and whatever opg_hash the group remembers;
+              raises ValueError when unsigned (also when an opg_hash is remembered)
   binary_payload()  ensures == forged || raw signature;  raises ValueError when unsigned
+  sign() on a group that ALREADY carries a signature (copied by _spawn from a group whose bytes have changed since) signs again:
+              the new signature verifies over the watermarked CURRENT forged bytes
+Initial state covered: client context with no chain id pinned / another chain than the group's / the group's; groups carrying a
+remembered opg_hash / opg_result; unsigned and already signed receivers.
 The three operations recorded from a public network in /repo/tests validate the hash oracle against Octez.
 """
 from vlib.runner import Check
@@ -49,7 +55,10 @@ def run(ck: Check) -> int:
               'Signature_prefix framing Octez uses on the wire for BLS-signed operations cannot be validated offline and is not demanded')
     ck.trust('specs/crypto_b58.py operation_hash (validated on the recorded network operations), specs/crypto_sig.py')
     ck.rule('R: every forgeable kind alone (3 field variants) + batches (reveal+transaction, 3 manager ops, 2 endorsements, 4 mixed '
-            'manager kinds) x source keys of the four curves x chain ids (4 for consensus kinds) x 3 branches; '
+            'manager kinds) x source keys of the four curves x chain ids (4 for consensus kinds) x 3 branches x chain id pinned on the '
+            'client context (none / another / the same, rotating); per group: unsigned payload/hash, sign, verify, hash, payload, the same '
+            'signature in curve-specific notation, re-signing after a branch change, re-deriving from an injected group, ONE group object '
+            're-used across in-place edits (field / appended content / branch; signature replaced in place) with sign() and hash() after each; '
             'class = (kinds, source kind, chain id, clause)')
     chunks = K.enumerate_cases(ck.tier, ck.seed)
     ck.bound('groups', sum(len(c) for c in chunks))
